@@ -218,6 +218,12 @@ def sequences_workload(ck, pid, tier, als):
     traces, meta = [], []
     for si in range(1500 if thorough else 250):
         trip = [r.choice(one) for _ in range(3)]
+        hexes = [a for a in one if a["cls"][0] == "hex"]
+        casevar = si % 10 == 3 and len(hexes) > 1
+        if casevar:
+            # variant 0: line 3 carries the OTHER-CASE spelling of line 1's hexadecimal secret (a different secret);
+            # variant 1: two unrelated hexadecimal secrets - the same equality pattern, so the same output
+            trip[0], trip[2] = r.choice(hexes), r.choice(hexes)
         same13 = si % 2 == 0 and trip[0]["cls"][0] == trip[2]["cls"][0] and trip[0]["slen"] == trip[2]["slen"]
         variants = []
         for v in range(2):
@@ -228,6 +234,14 @@ def sequences_workload(ck, pid, tier, als):
                 used |= {x["value"] for x in cj["secrets"]}
                 concs.append(cj)
             lines = [c["line"] for c in concs]
+            if casevar and v == 0:
+                o3 = concs[2]["secrets"][0]["value"]
+                n3 = concs[0]["secrets"][0]["value"].swapcase()
+                if n3 != concs[0]["secrets"][0]["value"] and G.classify(n3)[0] == "hex" and n3 not in used:
+                    w3 = list(concs[2]["words"])
+                    k3 = concs[2]["secrets"][0]["index"]
+                    w3[k3] = w3[k3].replace(o3, n3, 1)
+                    lines[2] = concs[2]["lead"] + " ".join(w3)
             if same13:
                 # line 3 carries the same secret value as line 1 (equality pattern kept in both variants)
                 old = concs[2]["secrets"][0]["value"]
@@ -389,6 +403,11 @@ def long_runs(ck, pid, tier):
             pool.append(G.j9_encode(pt, r.choice(G.ALPHA)))
             pool.append(G.j9_encode(pt, "-"))                 # every character of the alphabet can start / occur in an encoding
             pool.append(pt)
+        # the other-case spelling of hexadecimal values is another secret; so is a value that looks like a placeholder
+        for v in [p for p in pool if G.classify(p)[0] == "hex" and p.swapcase() != p][:3]:
+            if G.classify(v.swapcase())[0] == "hex":
+                pool.append(v.swapcase())
+        pool += ["netconanRemoved2", "netconanRemoved7", "netconanRemoved11"]
         # plaintexts with characters >= 0x80 have perfectly valid $9$ encodings too
         for pt in ("p\u00e4ssw\u00f6rd", "cl\u00e9-secr\u00e8te"):
             for _ in range(3):
@@ -405,7 +424,7 @@ def long_runs(ck, pid, tier):
         if run % 3 == 2:
             # secrets together with sensitive words that are PARTS of the clear-text secrets: a secret is recognised
             # (and filed under its own text) before any word inside it is rewritten
-            pts = [G.secret_key(p) for p in pool if G.classify(p)[0] in ("text", "juniper9")]
+            pts = [G.secret_key(p) for p in pool if G.classify(p)[0] in ("text", "juniper9") and not p.startswith("netconanRemoved")]
             frs = sorted({pt[1:6] for pt in pts if len(pt) >= 7 and pt[1:6].isalnum() and not pt[1:6].isdigit()})
             outs, logs = run_lines(lines, "s%d" % run, "io-words", words=frs)
         else:
